@@ -1237,7 +1237,8 @@ class TmpStore:
         # a copy of the index here.  An alternative would be to ensure that
         # all callers pass copies.  As is, our callers do not make copies.
         self.index = index.copy()
-        self.creating = creating
+        # The same holds for `creating`: a later savepoint updates it.
+        self.creating = creating.copy()
 
 
 class RootConvenience:
